@@ -88,6 +88,7 @@ FILE_CHILD = r"""
 import os, sys, json, time, tempfile, shutil, datetime as dt
 time.tzset()
 from uberjob.stores._file_store import get_modified_time
+import uberjob.stores as st
 from uberjob._transformations.caching import _to_naive_utc_time
 inst = json.load(sys.stdin)
 d = tempfile.mkdtemp(); p = os.path.join(d, 'f'); open(p, 'w').close()
@@ -97,7 +98,11 @@ try:
         os.utime(p, ns=(i * 1000, i * 1000))
         m = get_modified_time(p)
         c = _to_naive_utc_time(m)
-        out.append([(c - dt.datetime(1970, 1, 1)) // dt.timedelta(microseconds=1), m.fold, m.tzinfo is None])
+        per = {}
+        for cls in (st.PathSource, st.TextFileStore, st.JsonFileStore, st.BinaryFileStore, st.PickleFileStore, st.TouchFileStore):
+            mk = cls(p).get_modified_time()
+            per[cls.__name__] = (_to_naive_utc_time(mk) - dt.datetime(1970, 1, 1)) // dt.timedelta(microseconds=1)
+        out.append([(c - dt.datetime(1970, 1, 1)) // dt.timedelta(microseconds=1), m.fold, m.tzinfo is None, per])
 finally:
     shutil.rmtree(d, ignore_errors=True)
 print(json.dumps({"tzname": list(time.tzname), "out": out}))
@@ -123,8 +128,14 @@ def file_mtimes(ctx, zones, tables):
             ctx.broke("C18 file-mtime helper failed for TZ=%s" % z, p.stderr[-1500:])
             continue
         rep = json.loads(p.stdout)
-        for i, (conv, fold, naive) in zip(inst, rep["out"]):
+        for i, (conv, fold, naive, per) in zip(inst, rep["out"]):
             ctx.case(("file-mtime", z, i))
+            for cls, ck in per.items():
+                if ck != i:
+                    ctx.fail("file-mtime:%s" % cls,
+                             "TZ=%s: %s.get_modified_time() of a file modified at instant %d us is read by the staleness check as %d us (off by %d s)"
+                             % (z, cls, i, ck, (ck - i) // 10 ** 6), {"zone": z, "store": cls, "instant_us": i, "converted_us": ck})
+                    break
             ctx.count("file_mtime_fold", fold)
             if conv != i:
                 ctx.fail("file-mtime:wrong-instant",
